@@ -101,11 +101,21 @@ def run(ctx):
             ctx.ok('R1', 'gated:' + name, f, '%s: all %d state/effect access sites on all call paths are dominated by %s'
                    % (name, len(res), sorted(req)))
         # the network gate must receive the request's own network
-        vn = [c for c in prog.reach([f]).values() for c in c.calls_to(*VERIFIERS['network'])]
+        reach_fns = prog.reach([f])
+        vn = [c for c in reach_fns.values() for c in c.calls_to(*VERIFIERS['network'])]
         okarg = True
+
+        def arg_from_request(fn_, e, depth=0):
+            if mentions_field(e, 'network'):
+                return True
+            # the gates may live in a helper that receives the network as a parameter: follow to its call sites
+            if e[0] == 'param' and depth < 3:
+                sites = [c2 for g_ in reach_fns.values() for c2 in g_.calls() if c2.callee == fn_.id and not c2.cleanup]
+                return bool(sites) and all(arg_from_request(c2.fn, ex(prog, c2.fn).operand(c2.args[e[1] - 1]), depth + 1) for c2 in sites)
+            return False
         for c in vn:
             e = ex(prog, c.fn).operand(c.args[0])
-            if not mentions_field(e, 'network'):
+            if not arg_from_request(c.fn, e):
                 okarg = False
                 ctx.bad('R1', 'network-arg:' + name, c, 'verify_network is not given the request\'s network: %s' % show(e))
         if vn and okarg:
